@@ -27,6 +27,31 @@ def HistOk : List Block → List Op → Prop
   | _, [] => True
   | c, op :: ops => OpOk c op ∧ HistOk (chainStep c op) ops
 
+/-- What `fetchUtxosFromCache` leaves in the view: every requested outpoint is a key whose
+(cloned) slot shows the reported value; other keys are untouched. -/
+theorem viewFetch_get (db : Db) (os : List OutPoint) : ∀ (c : Cache) (v : View), CInv c db → ∀ o,
+    (o ∈ os → ∃ slot, (viewFetch c db os v).2.get o = some slot ∧ rval slot = abs c db o) ∧
+    (o ∉ os → (viewFetch c db os v).2.get o = v.get o) := by
+  induction os with
+  | nil => intro c v _ o; exact ⟨fun h => by simp at h, fun _ => rfl⟩
+  | cons x xs ih =>
+    intro c v h o
+    obtain ⟨hc1, habs, _, hval⟩ := fetch_spec c db x h
+    have ih' := ih (fetch c db x).1 (setSlot v x (some (fetch c db x).2)) hc1 o
+    simp only [viewFetch]
+    by_cases hxs : o ∈ xs
+    · refine ⟨fun _ => ?_, fun hn => (hn (List.mem_cons_of_mem _ hxs)).elim⟩
+      obtain ⟨slot, h1, h2⟩ := ih'.1 hxs
+      exact ⟨slot, h1, by rw [h2, habs o]⟩
+    · rw [ih'.2 hxs]
+      by_cases hox : o = x
+      · subst hox
+        refine ⟨fun _ => ⟨_, get_setSlot_same _ _ _, hval⟩, fun hn => (hn (by simp)).elim⟩
+      · refine ⟨fun hm => ?_, fun _ => get_setSlot_ne _ _ _ _ hox⟩
+        rcases List.mem_cons.mp hm with h1 | h1
+        · exact (hox h1).elim
+        · exact (hxs h1).elim
+
 theorem step_inv (s : State) (op : Op) (h : Inv s) (hok : OpOk s.chainRev op) :
     ∃ s', step s op = some s' ∧ Inv s' ∧ s'.chainRev = chainStep s.chainRev op := by
   cases op with
